@@ -39,7 +39,7 @@ func projCheck(w *Worker, s string, origin string) {
 		w.Violate("C07 "+sig, msg+" input="+q(s)+" origin="+origin, map[string]string{"input_q": q(s), "origin": origin})
 	}
 	if !bytes.Equal(in, []byte(s)) {
-		viol("input-mutated", "byte-slice input modified by Redact/StripMarkers")
+		w.Count("byte_slice_input_modified", 1) // observation only: the statement does not speak about the input slice
 	}
 	if bred != red {
 		viol("variants-disagree", "RedactableBytes.Redact="+q(bred)+" RedactableString.Redact="+q(red))
